@@ -142,7 +142,12 @@ class _ServerInternalRunAdapter(BaseInternalRunAdapterDecorator):
                     )
 
                 envelope = EventEnvelopeWithMetadata.from_event(event)
-                await self._store.append_event(self.run_id, envelope)
+                # same backoff as handler-status writes: an unretried failure here
+                # escapes into the control loop and ends the run while the handler
+                # record still says "running"
+                await self._runtime._retry_store_write(
+                    lambda: self._store.append_event(self.run_id, envelope)
+                )
 
             # Always forward to inner adapter (e.g. idle detection, DBOS stream)
             await super().write_to_event_stream(event)
